@@ -25,7 +25,9 @@ NoEffect(p, m) ==    \* IF, not \/: TLC splits a disjunction inside an action in
   ELSE IF m.i # inst[p] THEN TRUE
   ELSE IF ~Relevant(p, Strip(m)) THEN TRUE
   ELSE LET st0 == St0(p) IN Absorb(p, st0, Strip(m), input[p]) = {st0}
-Quiescent == \A p \in H : \A m \in sent : NoEffect(p, m)
+\* every honest member has started (members start an instance by their own clock; after stabilisation they all do so within the
+\* bound) and every vote sent so far has been absorbed by everybody
+Quiescent == (\A p \in H : Started(p)) /\ \A p \in H : \A m \in sent : NoEffect(p, m)
 MaxR(f) == CHOOSE x \in {f[p] : p \in H} : \A q \in H : f[q] <= x
 
 SInit == MInit /\ gst = FALSE /\ gstRound = 0
@@ -48,5 +50,9 @@ SSpec == SInit /\ [][SNext]_svars
 
 RoundBound == gst => \A p \in H : round[p] <= gstRound + K
 SafetyStill == MAgreement /\ MValidity
+\* C02, second sentence: common input, honest strong quorum, synchronous from the start, no faulty sender => that chain is decided
+UniformDecides == \A p \in H : decided[p] # Bot => decided[p] = Input[p]
+SyncFromStart == gst \/ hist = << >>          \* (used with PrefixLen = 0: the only first step is Stabilise)
+ViewNoHist == <<vars, gst, gstRound>>
 ExportSync == (gst /\ AllDone) => PrintT(<<"VERIF_HIST", ToJson(hist)>>)
 =============================================================================
